@@ -10,6 +10,7 @@ case <idx> <b|a> <json|jsonnp|msg> <max> <behaviour,behaviour,…|->
 bc <idx> <b|a> <max> <name=tag+tag=behaviour,…;…> <tag,tag|->
    -> <idx> addressed <name,…|-> results <name=result,…|->
 ```
+`coverage <idx>` -> `<idx> ok` (the harness prints something else when it had to drop too many cases).
 `b` = blocking `Fleet`, `a` = `AsyncFleet`; the policy table and loop shape are the facts extracted
 for that fleet and call variant.
 -/
@@ -97,6 +98,7 @@ def step (st : Unit) (ws : List String) : Unit × String :=
       (st, joinSp [idx, "addressed", orDash addressed, "results",
                    orDash (rs.map fun r => r.1 ++ "=" ++ showReply r.2.result)])
     | _, _, _ => (st, idx ++ " bad-op")
+  | ["coverage", idx] => (st, idx ++ " ok")
   | _ :: idx :: _ => (st, idx ++ " bad-op")
   | _ => (st, "bad-op")
 
